@@ -432,6 +432,13 @@ class Executor:
             if isinstance(a, TupVal) and isinstance(b, TupVal) and isinstance(op, ast.Add):
                 yield s, TupVal(a.items + b.items)
                 continue
+            if isinstance(op, ast.Add) and (isinstance(a, TupVal) or isinstance(b, TupVal)):
+                # tuple display + sequence value: materialise the display as a (fresh) tuple, then concatenate
+                other = b if isinstance(a, TupVal) else a
+                if isinstance(other, Val) and strip_opt(other.ty)[0] in ("seq", "any"):
+                    tv = a if isinstance(a, TupVal) else b
+                    mat = alloc_seq(s, [to_v(x, s) for x in tv.items], "tuple", ANY)
+                    a, b = (mat, Val(b.t, SEQ(ANY)) if strip_opt(b.ty)[0] == "any" else b) if isinstance(vals[0], TupVal) else (Val(a.t, SEQ(ANY)) if strip_opt(a.ty)[0] == "any" else a, mat)
             if isinstance(a, Val) and isinstance(b, Val):
                 ka, kb = strip_opt(a.ty)[0], strip_opt(b.ty)[0]
                 if ka == "set" and kb == "set" and isinstance(op, (ast.BitAnd, ast.BitOr, ast.Sub)):
